@@ -88,7 +88,9 @@ theorem hallRowIn_spec {h : Nat} {r : HallRowIn} (hr : hallRowIn h = some r) :
       r.geoHist = (geoHist[geoIdxOfArith e.arithmeticNumber]?).getD [] ∧
       r.geoOrder = sumList r.geoHist ∧
       r.rep = arithRep e.arithmeticNumber ∧
-      r.first = hallPrimOps ((spglibHallNumbers.toList[e.number - 1]?).getD 0) := by
+      r.first = hallPrimOps ((spglibHallNumbers.toList[e.number - 1]?).getD 0) ∧
+      r.allowedCentering = allowedCenterings
+        ((bravaisNames[(C16.arithBravais[e.arithmeticNumber - 1]?).getD 99]?).getD "") := by
   unfold hallRowIn at hr
   rw [chunkGet_hall] at hr
   cases he : hallTableList[h - 1]? with
@@ -96,7 +98,7 @@ theorem hallRowIn_spec {h : Nat} {r : HallRowIn} (hr : hallRowIn h = some r) :
   | some e =>
     simp only [he, Option.some.injEq] at hr
     subst hr
-    exact ⟨e, he, rfl, rfl, rfl, rfl, rfl, rfl, rfl, rfl⟩
+    exact ⟨e, he, rfl, rfl, rfl, rfl, rfl, rfl, rfl, rfl, rfl⟩
 
 /-- The certificate lists are what the model computes for row `h`. -/
 theorem hallRow_model {h : Nat} (hok : hallRowOK h = true) :
@@ -116,6 +118,7 @@ structure ArithRowFacts (k : Nat) (a : ArithEntry) : Prop where
   row : arithTable.toList[k - 1]? = some a
   number : a.arithmeticNumber = k
   geoName : geoNames[geoIdxOfArith k]? = some a.geometricClass
+  bravaisName : bravaisNames[(C16.arithBravais[k - 1]?).getD 99]? = some a.bravaisClass
   repArith : (hallEntry ((arithRepHall[k - 1]?).getD 0)).map (·.arithmeticNumber) = some k
   repPos : 1 ≤ (arithRepHall[k - 1]?).getD 0
   distinct : (arithRep k).Nodup
@@ -129,9 +132,9 @@ theorem arithRow_facts {k : Nat} (hok : arithRowOK k = true) : ∃ a, ArithRowFa
   | some a =>
     simp only [ha, allOK, List.all_cons, List.all_nil, Bool.and_true, Bool.and_eq_true,
       decide_eq_true_eq, beq_iff_eq] at hcl
-    obtain ⟨h1, h2, _, _, ⟨h5, h5'⟩, h6, h7⟩ := hcl
+    obtain ⟨h1, h2, h3, _, ⟨h5, h5'⟩, h6, h7⟩ := hcl
     rw [chunkGet_hall] at h5
-    exact ⟨a, hpos, ha, h1, h2, h5, h5', nodup_of_keys h6, h7⟩
+    exact ⟨a, hpos, ha, h1, h2, h3, h5, h5', nodup_of_keys h6, h7⟩
 
 /-! ### magnetic rows -/
 
